@@ -89,6 +89,22 @@ cocls::with_allocator<St, cocls::async<int>> st_body(St &, c19_ctx &C, int id, c
     C.finished.fetch_add(1, std::memory_order_relaxed);
     co_return id;
 }
+// the same body as a MEMBER-function coroutine: the frame is obtained through the operator new overload that also receives the object
+// reference (a separate code path in with_allocator)
+struct st_member {
+    uint64_t salt = 0x5EED;
+    template <typename St, int N>
+    cocls::with_allocator<St, cocls::async<int>> body(St &, c19_ctx &C, int id, cocls::future<void> *gate) {
+        uint64_t can[N];
+        for (int i = 0; i < N; i++) can[i] = vf::mix((uint64_t)id ^ salt, (uint64_t)i);
+        C.started.fetch_add(1, std::memory_order_relaxed);
+        if (gate) { bool hv = co_await gate->has_value(); (void)hv; }
+        for (int i = 0; i < N; i++) if (can[i] != vf::mix((uint64_t)id ^ salt, (uint64_t)i)) C.canary_bad.fetch_add(1, std::memory_order_relaxed);
+        C.finished.fetch_add(1, std::memory_order_relaxed);
+        co_return id;
+    }
+};
+inline st_member g_st_member;
 template <typename St> cocls::future<int> st_start(St &st, c19_ctx &C, int id, cocls::future<void> *gate, int size_class) {
     switch (size_class) { // nine frame sizes: far apart, a few words apart, and runs that grow by ONE word (8 bytes) per step, so that both
                           // 8 mod 16 -> 0 mod 16 and 0 mod 16 -> 8 mod 16 growth happens (capacity bookkeeping in allocator granules)
@@ -100,11 +116,15 @@ template <typename St> cocls::future<int> st_start(St &st, c19_ctx &C, int id, c
     case 5: return st_body<St, 3>(st, C, id, gate).start();
     case 6: return st_body<St, 4>(st, C, id, gate).start();
     case 7: return st_body<St, 5>(st, C, id, gate).start();
-    default: return st_body<St, 25>(st, C, id, gate).start();
+    case 8: return st_body<St, 25>(st, C, id, gate).start();
+    case 9: return g_st_member.body<St, 2>(st, C, id, gate).start();
+    case 10: return g_st_member.body<St, 3>(st, C, id, gate).start();
+    case 11: return g_st_member.body<St, 4>(st, C, id, gate).start();
+    default: return g_st_member.body<St, 5>(st, C, id, gate).start();
     }
 }
 
-constexpr int ST_NSIZES = 9;
+constexpr int ST_NSIZES = 13; // 9 free-function bodies + 4 member-function bodies
 struct st_result { std::string err; long heap_allocs_after_warmup = 0; std::string desc; };
 
 // sequences: up to 'maxlive' coroutines alive at once on ONE storage (1 for the single-block policies)
@@ -353,7 +373,7 @@ void storage_mt(const vf::opts &o, vf::report &R, vf::team &T, uint64_t rounds) 
         auto st = std::make_unique<St>();
         c19_ctx C;
         int n[2] = {1 + (int)r.below(4), 1 + (int)r.below(4)};
-        int sc[2][4]; for (int t = 0; t < 2; t++) for (int i = 0; i < 4; i++) sc[t][i] = (int)r.below(3);
+        int sc[2][4]; for (int t = 0; t < 2; t++) for (int i = 0; i < 4; i++) sc[t][i] = (int)r.below(ST_NSIZES);
         std::atomic<int> bad_val{0};
         long fa0 = g_frame_allocs.load(), fd0 = g_frame_deallocs.load(); unsigned e0 = g_frames.errors.load();
         std::string desc = "t0:" + std::to_string(n[0]) + " t1:" + std::to_string(n[1]) + " frames";
